@@ -141,10 +141,21 @@ async def run_case(acc, clock, slots, prior, req, state, cid, concur=None):
                 if conc["n"] == concur:
                     asyncio.get_running_loop().create_task(live())
                     await asyncio.sleep(0)
-            ep.vf_writer.drain_hook = drain_hook
+            if concur == "hook":
+                # the application's on_state_change callback itself sends the new message when the connection starts to handle the
+                # request: it is on the wire before the first reply frame, so the reply may (not must) retransmit it - never skip it
+                async def on_state_change(state, *a):
+                    if getattr(state, "name", "") == "RESENDREQ_HANDLING" and not conc["n"]:
+                        conc["n"] = 1
+                        conc["before_reply"] = True
+                        await live()
+                ep.vf_hooks["on_state_change"] = on_state_change
+            else:
+                ep.vf_writer.drain_hook = drain_hook
             w["concurrent_send_at_drain"] = concur
         await feed(peer.frame("2", None, [(7, begin), (16, end)]))
         ep.vf_writer.drain_hook = None
+        ep.vf_hooks.pop("on_state_change", None)
         w["concurrent_send"] = dict(conc)
         reply = E.parse_tap(ep.vf_tap.frames(tap0))
         w["reply"] = [fixwire.show(b)[:140] for b in ep.vf_tap.frames(tap0)]
@@ -189,6 +200,8 @@ async def run_case(acc, clock, slots, prior, req, state, cid, concur=None):
         ok = True
         if not invalid:
             acc.oracle("chain")
+            extra_ok = bool(conc.get("before_reply") and conc["sent"] and (end == 0 or end > last))
+            took_extra = False
             c = begin
             for fr in reply:
                 if isinstance(fr, Exception):
@@ -199,6 +212,10 @@ async def run_case(acc, clock, slots, prior, req, state, cid, concur=None):
                     if n != out0:
                         V("chain:concurrent-new-message-misnumbered", f"the message sent during the reply carries {n}, next number was {out0}"); ok = False; break
                     continue            # the live frame of the concurrent sender: not part of the reply
+                if extra_ok and c == out0 and n == out0 and mt == "D" and fixwire.get(fr, 11) == "live1" and fixwire.get(fr, 43) == "Y":
+                    c += 1              # the message the callback sent before the reply started, retransmitted: fine
+                    took_extra = True
+                    continue
                 if n != c:
                     V("chain:not-contiguous", f"frame numbered {n} where {c} was due"); ok = False; break
                 if mt == "4":
@@ -233,7 +250,7 @@ async def run_case(acc, clock, slots, prior, req, state, cid, concur=None):
                     if c > hi:
                         V("chain:retransmission-beyond-range", f"{c} > {hi}"); ok = False; break
                     c += 1
-            if ok and c != hi + 1:
+            if ok and c != hi + 1 and not (took_extra and c == hi + 2):
                 V("chain:ends-early", f"chain reaches {c}, range ends at {hi} (begin={begin} end={end} last={last})")
                 ok = False
         acc.oracle("side-effects")
@@ -311,7 +328,7 @@ def run_shard(spec, acc):
             rnd = random.Random(f"{spec['seed']}:C06:{shard}:{c}")
             slots = [rnd.choice(KINDS + ["app", "app"]) for _ in range(rnd.randrange(2, 10))]
             prior = rnd.choice([None, None, "cover", "partial"])
-            concur = rnd.choice([None, None, 1, 1, 2, 3])
+            concur = rnd.choice([None, None, 1, 1, 2, 3, "hook", "hook"])
             r = await run_case(acc, clock, slots, prior, (rnd.choice(BEGINS + ["1", "mid"]), rnd.choice(ENDS + ["0", "0"])), rnd.choice(["active", "awaiting"]), cid, concur)
             if r is None:
                 continue
